@@ -162,6 +162,7 @@ class FunctionVerifier:
             self.path_notes = []
             self._nonneg, self._nonneg_keep = set(), []
             self._soft_ids, self.soft_mode = set(), False
+            self._branch_ids = set()
             self._fresh_ids, self._entry_ids, self._id_keep = set(), set(), []
             self._owner_tag, self._entry_term_cache, self._binder_cache, self._lkind_tag = {}, {}, {}, {}
             self._revealed = {}
@@ -214,8 +215,11 @@ class FunctionVerifier:
         return r
 
     def add_cover(self):
+        if any(z3.is_false(c) for c in self.pc):
+            return      # the path ended in a "must be infeasible" obligation (unexpected exception): no cover
         hard = [c for c in self.pc if c.get_id() not in self._soft_ids]
-        self.covers.append((f"{self.label}#cover@p{self.paths}", list(self.pc), hard))
+        nobranch = [c for c in self.pc if c.get_id() not in self._branch_ids]
+        self.covers.append((f"{self.label}#cover@p{self.paths}", list(self.pc), hard, nobranch))
 
     def feasible_full(self, cond, timeout=5000):
         s = z3.Solver()
@@ -253,7 +257,10 @@ class FunctionVerifier:
             else:
                 raise PathEnd()
         self.trace.append([val, alt])
-        self.pc.append(cond if val else z3.Not(cond))
+        dec = cond if val else z3.Not(cond)
+        self._branch_ids.add(dec.get_id())
+        self._id_keep.append(dec)
+        self.pc.append(dec)
         return val
 
     def choose_n(self, n):
@@ -386,6 +393,7 @@ class FunctionVerifier:
         self.ctr = itertools.count()
         self._nonneg, self._nonneg_keep = set(), []
         self._soft_ids, self.soft_mode = set(), False
+        self._branch_ids = set()
         self._fresh_ids, self._entry_ids, self._id_keep = set(), set(), []
         self._owner_tag, self._entry_term_cache, self._binder_cache, self._lkind_tag = {}, {}, {}, {}
         self._revealed = {}
